@@ -32,6 +32,19 @@ Theorem C19_replay_idempotent_log : forall c src l k,
 Proof. exact replay_idempotent_log. Qed.
 Print Assumptions C19_replay_idempotent_log.
 
+(* (1b) at most once, for ANY delivery order (re-ordering with older entries, gaps, losses, retries): over all
+        schedules whose deliveries are entries of the well-formed source log, the data replicated from c is the
+        payload image of a SUB-SEQUENCE of the source log (so every source entry contributes at most once, in
+        source order) and the recorded position is the position of the last applied entry *)
+Theorem C19_at_most_once : forall ops c src,
+  c <> 0 -> wf_source c src ->
+  (forall e, In e (delivered ops) -> s_cluster e = c -> In e src) ->
+  exists acc, Sublist acc src /\
+    proj c (r_journal (n_cur (run ops))) = map s_payload acc /\
+    synced_of (n_cur (run ops)) c = option_map pos_of (last_opt acc).
+Proof. exact at_most_once_sched. Qed.
+Print Assumptions C19_at_most_once.
+
 (* (2) when everything was delivered, the replicated data is the source cluster's own data *)
 Theorem C19_replay_equals_source : forall ops c src,
   c <> 0 -> wf_source c src ->
